@@ -42,7 +42,7 @@ def emit(ty, all_, table):
         out.append(''.join('@[simp] theorem %s_%s : %s .%s = %s := rfl\n'%(name,c,name,c,'true' if c in yes else 'false') for c in all_))
 emit('WPc',wp,W)
 emit('CPc',cp,C)
-fields=['pending','life','queue','closed','totalGo','mu','grpN','cancelled','numRunning','workers','callers','panic','holder','tasks','returned','nStartOk','nShutOk','graceful','badExits','liveAtShut']
+fields=['idleExits','hwmGo','pending','life','queue','closed','totalGo','mu','grpN','cancelled','numRunning','workers','callers','panic','holder','tasks','returned','nStartOk','nShutOk','graceful','badExits','liveAtShut']
 out.append('''/-! ### inclusions between the classes -/
 
 theorem growPc_crit (p : CPc) : growPc p = true → crit p = true := by cases p <;> simp
